@@ -118,8 +118,14 @@ class SArray:
         for it in item:
             if isinstance(it, SArray):
                 if it.kind == 'b' or all(is_concrete(x) for x in it.a.flat):
-                    if any(not is_concrete(x) for x in it.a.flat): raise Unsupported('symbolic bool mask index')
-                    it = it.a.astype(NPDT[it.kind]) if it.ndim else it.a[()]
+                    if any(not is_concrete(x) for x in it.a.flat):
+                        # a symbolic boolean mask decides the SHAPE of the result: fork on every entry (the path explorer enumerates the masks)
+                        if it.size > 8: raise Unsupported('symbolic bool mask index with more than 8 entries')
+                        conc = numpy.empty(it.shape, bool)
+                        for i in numpy.ndindex(*it.shape): conc[i] = bool(it.a[i])
+                        it = conc if it.ndim else conc[()]
+                    else:
+                        it = it.a.astype(NPDT[it.kind]) if it.ndim else it.a[()]
                 else:
                     sym = True
             elif isinstance(it, Sym):
@@ -488,8 +494,9 @@ def _structural(fn, kindrule=None):
             return x
         a = [unwrap(x) for x in args]
         kw = {k: unwrap(v) for k, v in kwargs.items()}
+        dt = kw.pop('dtype', None)       # concatenate/stack(..., dtype=...): the payload stays an object array, the requested dtype decides the kind
         r = fn(*a, **kw)
-        k = (kindrule or _k_arith)(kinds)
+        k = (kindrule or _k_arith)(kinds) if dt is None else kind_of_dtype(dt)
         if isinstance(r, numpy.ndarray): return SArray(r if r.dtype == object else r.astype(object), k)
         if isinstance(r, (tuple, list)): return type(r)(SArray(x, k) for x in r)
         return SArray.wrap_elem(r, k)
